@@ -236,6 +236,60 @@ def position_sites(fnode):
     return out
 
 
+_FLOAT_DT = ("float", "np.float64", "numpy.float64", "np.double", "np.float_", "'float'", "'float64'", "'f8'", "np.longdouble")
+_FLOAT_FNS = {"exp", "log", "log1p", "expm1", "sqrt", "mean", "average", "var", "std", "cdist", "inv", "pinv", "solve", "cholesky", "true_divide", "divide", "float", "float64", "zeros", "ones", "empty", "eye", "identity", "linspace", "logaddexp", "logsumexp"}
+
+
+def _surely_float(du, e, st, seen=None):
+    """`e` is floating point whatever the dtype of the caller's arrays: it went through a true division, a float literal, a
+    float-valued function or an explicit float conversion.  Attribute reads and parameters prove nothing."""
+    seen = seen if seen is not None else set()
+    F = lambda x: _surely_float(du, x, st, seen)
+    if isinstance(e, ast.Constant):
+        return isinstance(e.value, float)
+    if isinstance(e, ast.BinOp):
+        if isinstance(e.op, ast.Div):
+            return True
+        return F(e.left) or F(e.right)
+    if isinstance(e, ast.UnaryOp):
+        return F(e.operand)
+    if isinstance(e, ast.Subscript):
+        return F(e.value)
+    if isinstance(e, ast.IfExp):
+        return F(e.body) and F(e.orelse)
+    if isinstance(e, ast.Call):
+        fn = e.func.attr if isinstance(e.func, ast.Attribute) else getattr(e.func, "id", None)
+        for kw in e.keywords:
+            if kw.arg == "dtype":
+                return src(kw.value) in _FLOAT_DT
+        if fn == "astype":
+            return bool(e.args) and src(e.args[0]) in _FLOAT_DT
+        if fn in _FLOAT_FNS:
+            return True
+        if fn in ("maximum", "minimum", "where", "add", "multiply", "subtract", "clip", "fmax", "fmin"):
+            args = e.args[1:] if fn == "where" and len(e.args) == 3 else e.args
+            return any(F(a) for a in args) if fn != "where" else all(F(a) for a in args)
+        if fn in ("asarray", "array", "copy", "atleast_1d", "atleast_2d", "reshape", "ravel", "flatten", "transpose", "squeeze", "abs", "square", "negative", "sum", "cumsum") and (e.args or isinstance(e.func, ast.Attribute)):
+            a0 = e.args[0] if e.args and isinstance(e.func, ast.Attribute) and isinstance(e.func.value, ast.Name) and e.func.value.id in ("np", "numpy", "da") else (e.func.value if isinstance(e.func, ast.Attribute) else (e.args[0] if e.args else None))
+            return a0 is not None and F(a0)
+        return False
+    if isinstance(e, ast.Name):
+        ds = du.reaching(st, e.id)
+        if not ds:
+            return False
+        for d in ds:
+            k = id(d)
+            if k in seen:
+                continue
+            seen.add(k)
+            if d.how not in ("assign",) or d.value is None:
+                return False
+            if not _surely_float(du, d.value, d.stmt, seen):
+                return False
+        return True
+    return False
+
+
 def _selfcheck(R):
     ex = ast.parse(_EXAMPLE)
     f = {n.name: n for n in ex.body if isinstance(n, ast.FunctionDef)}
@@ -362,6 +416,19 @@ def check(P, R, modules, scope=None, rules=("T1", "T2", "T3", "T4", "T5", "T6", 
                 if used and not node.orelse:
                     n += 1
                     R.violation(rule + ".all-guard", f.key, src(node.test)[:60], f"the statements under `if all({mname})` index with `{mname}` - they update the selected elements only - but run only when *every* element is selected: as soon as one element is not (a component without data), none is updated", node.lineno)
+        # T10: np.reciprocal keeps the dtype of its argument: for an integer array it is the *integer* reciprocal (1 -> 1, v >= 2 -> 0)
+        for node in [x for x in ast.walk(f.node) if isinstance(x, ast.BinOp) and getattr(x, "_reciprocal", False)]:
+            du = du or get_defuse(f, P)
+            dt = getattr(node, "_reciprocal_dtype", None)
+            try:
+                st_ = du.stmt_of(node)
+            except Exception:
+                st_ = None
+            if (dt is not None and src(dt) in _FLOAT_DT) or (st_ is not None and _surely_float(du, node.right, st_)):
+                R.ok(rule + ".int-reciprocal", f.key, "np.reciprocal(" + src(node.right)[:40] + ")", "the argument is floating point by construction", node.lineno)
+                continue
+            n += 1
+            R.violation(rule + ".int-reciprocal", f.key, "np.reciprocal(" + src(node.right)[:40] + ")", "np.reciprocal computes in the dtype of its argument: for whole-number values stored as an integer array the result is the integer reciprocal (0 for every value >= 2), while `1 / x` and the same values stored as floats give the true reciprocal; nothing here makes the argument floating point", node.lineno)
         if "T6" in rules:
             for node in indexany_sites(f.node):
                 n += 1
